@@ -93,6 +93,8 @@ Definition is_ascii (c : N) : bool := c <? 128.
 (* ---- UTF-8 ------------------------------------------------------------------- *)
 Definition scalar (c : N) : bool := (c <? 55296) || ((57344 <=? c) && (c <? 1114112)).
 
+Definition all_scalar (s : list N) : bool := forallb scalar s.
+
 Definition utf8_enc1 (c : N) : list N :=
   if c <? 128 then [c]
   else if c <? 2048 then [192 + c / 64; 128 + c mod 64]
@@ -103,10 +105,12 @@ Definition utf8_enc (s : text) : list N := flat_map utf8_enc1 s.
 
 Definition FFFD : N := 65533.
 Definition is_cont (b : N) : bool := (128 <=? b) && (b <=? 191).
+(* second byte of a 3-byte form: E0 needs A0..BF (no overlong), ED needs 80..9F (no surrogates) *)
 Definition ok2_3 (b1 b2 : N) : bool :=
-  is_cont b2 && (if b1 =? 224 then 160 <=? b2 else if b1 =? 237 then b2 <? 160 else true).
+  is_cont b2 && (negb (b1 =? 224) || (160 <=? b2)) && (negb (b1 =? 237) || (b2 <? 160)).
+(* second byte of a 4-byte form: F0 needs 90..BF, F4 needs 80..8F *)
 Definition ok2_4 (b1 b2 : N) : bool :=
-  is_cont b2 && (if b1 =? 240 then 144 <=? b2 else if b1 =? 244 then b2 <? 144 else true).
+  is_cont b2 && (negb (b1 =? 240) || (144 <=? b2)) && (negb (b1 =? 244) || (b2 <? 144)).
 
 (* bytes.decode('utf-8', 'replace') as CPython does it: every maximal ill-formed
    subpart (invalid start byte; lead byte plus the valid continuation bytes before
